@@ -92,7 +92,9 @@ impl Channel {
                         .as_ref()
                         .map(|operation| operation.object());
 
-                    if obj == Some(self.state.erase()) {
+                    // `operation` may be left over from an earlier operation
+                    // on this channel: only wake threads that are blocked on it.
+                    if obj == Some(self.state.erase()) && thread.is_blocked() {
                         thread.set_runnable();
                     }
                 }
